@@ -72,7 +72,7 @@ def catalogue():
     c["bytes-hex"] = ({"k": "Bytes", "o": {"encoding": "hex", "default": Y(b"\x00\xff")}}, [Y(b"ab"), Y(bytes(range(7)))], [5])
     c["float-precise"] = ({"k": "Float", "o": {"default": F(0.1 + 0.2)}}, [F(1234567.891), F(1e-7), F(123456789012345680.0)], ["x"])
     c["int-big"] = ({"k": "Int"}, [2 ** 40, -(2 ** 62), 0], ["x"])
-    c["str-tricky"] = ({"k": "Str", "o": {"default": " padded "}}, ["true", "1.0", "", "<&>\"'\n\ttab", "\u00e9\U0001F600", "null", "]]>", " "], [5])
+    c["str-tricky"] = ({"k": "Str", "o": {"default": " padded "}}, ["true", "1.0", "", "<&>\"'\n\ttab", "\u00e9\U0001F600", "null", "]]>", " ", "caf\udce9.txt"], [5])
     c["list-bytes"] = ({"k": "List", "item": {"k": "Bytes"}}, [[Y(b"ab"), Y(b"\xff")], []], [[5], [BA(b"ab")]])
     c["list-challenge"] = ({"k": "List", "item": {"k": "Challenge", "o": {"hash_algorithm": "sha1"}}}, [["pw1", "pw2"]], [[5]])
     c["list-secure"] = ({"k": "List", "item": {"k": "Secure", "o": {"method": "xor"}}}, [["sec-1", "sec-2"], ["a-secret-that-is-longer-than-the-thirty-two-byte-key"]], [])
@@ -115,6 +115,10 @@ def catalogue():
     c["str-case-spelled"] = ({"k": "Str", "o": {"transform_case": "LOWER", "transform_strip": True, "choices": ["ab", "cd"]}}, ["ab", " CD "], ["ef", 5])
     c["loglevel-case-spelled"] = ({"k": "LogLevel", "o": {"transform_case": "Lower", "default": "info"}}, ["debug", " ERROR "], ["trace"])
     c["str-req-min0"] = ({"k": "Str", "o": {"required": True, "min_len": 0, "transform_strip": True, "default": "v"}}, ["a", " b "], ["", "  ", None])
+    # string subclasses with inherited transform options: what is stored is the transformed text
+    c["url-norm"] = ({"k": "Url", "o": {"transform_strip": True, "transform_case": "lower", "max_len": 12}}, ["http://x", " HTTP://Y "], ["nourl", " http://toolong.example ", 5])
+    c["host-norm"] = ({"k": "Host", "o": {"transform_strip": True, "transform_case": "lower", "default": "localhost"}}, ["example.com", " EXAMPLE.org "], ["a b", 5])
+    c["ipv4-strip"] = ({"k": "IPv4", "o": {"transform_strip": True}}, ["10.0.0.1", " 192.168.0.1 "], ["10.0.0.256", 5])
     c["str-regex-unanchored"] = ({"k": "Str", "o": {"regex": "a.c", "default": "abc"}}, ["abc", "axcde"], ["xabc", "9 abc", "X\nabc", 5])
     c["file-new-in-dir"] = ({"k": "File", "o": {"exists": False, "startdir": "@FW"}}, ["/nonexistent-dir-zq/abs", "fresh.log"], ["taken.log", "adir", 5])
     c["file-in-dir"] = ({"k": "File", "o": {"exists": "file", "startdir": "@FW"}}, ["taken.log"], ["fresh.log", "adir"])
@@ -130,7 +134,7 @@ def core_leaves():
 
 
 def option_leaves():
-    return ["int-fracbounds", "int-negfrac", "port-fracmin", "str-case-spelled", "loglevel-case-spelled", "str-req-min0", "str-regex-unanchored",
+    return ["int-fracbounds", "int-negfrac", "port-fracmin", "str-case-spelled", "loglevel-case-spelled", "str-req-min0", "str-regex-unanchored", "url-norm", "host-norm", "ipv4-strip",
             "file-new-in-dir", "file-in-dir", "dir-in-dir"]
 
 
@@ -610,6 +614,13 @@ def apply_op(w, op):
     if name == "mutin":        # in-place mutation of a container held inside a typed container: cfg.d["k"].append(v)
         target = chained(cfg, op[1])[op[2]]
         return mutate(w, target, op[3], op[4:])
+    if name == "rset":           # the configuration is rendered (tree and document) first, then the attribute is assigned
+        cfg.to_tree()
+        cfg.dumps("json")
+        path, v = op[1], w.dec(op[2])
+        owner = chained(cfg, path.rsplit(".", 1)[0]) if "." in path else cfg
+        setattr(owner, path.rsplit(".", 1)[-1], v)
+        return None
     if name == "render":         # serialisation: must be free of side effects
         cfg.to_tree()
         cfg.to_tree(virtual=True, sensitive_mask="*")
@@ -754,6 +765,11 @@ def ops_for(spec, leafname, tier="quick"):
             ops.append(["mut", path, "iadd", T(gi)])
             ops.append(["mut", path, "setslice", [0, 1, None], V.ITER([gi])])
             ops.append(["mut", path, "pop"])
+            if f.get("item") is not None and f["item"]["k"] in ("Int", "Port"):
+                # equal to an integer item but of another type: rejected (bool) or converted (float), never stored as it is
+                ops.append(["mut", path, "setitem", 0, True])
+                ops.append(["mut", path, "setitem", 0, F(1.0)])
+                ops.append(["mut", path, "setitem", 0, 1])
             if f.get("item") is not None:
                 bi = "x" if f["item"]["k"] == "Int" else 5
                 bn = "3" if f["item"]["k"] == "Int" else " n "
